@@ -94,6 +94,11 @@ CHECKS = {
          "Over all example packages, the odd-syntax and type-shape families and all 1-deviation mutants of the examples (incl. re-typing declarations to defined/alias types and inserting a marker statement between every two adjacent statements): for each diagnostic with a QuickFix, and each message matching one of six quotation formats whose quoted original can be located in the source, the replacement must parse as the category of what it replaces; the file with the replacement substituted must type-check (std imports named by the replacement are added, now-unused imports ignored); the replaced expression must keep its type up to default typing (evaluated inside one type universe); marker statements inside a fix range must survive; and re-analysis must not report the same diagnostic at the same place (the checker's diagnostics in that file must decrease).",
          "Messages in other formats are counted as unclassified and never judged. methodExprCall's two-part rewrite is not judged.",
          "DESIGN.md section 3, C09"),
+ "C12": ("exploration",
+         "bounded-exhaustive enumeration of claim families; every program on which a checker asserts a run-time fact is compiled and executed on value grids by the real toolchain and the observed values compared with the claim",
+         "Families over the side conditions the property names: sloppyLen (real / package-level / local shadow of len x 6 operand types x 3 comparisons), badCond (int, float incl. NaN, impure call, field operands x constant pairs x operator pairs), offBy1 (slice, named slice, string, array pointer, map, named map, alias, type-parameter containers x read/write/generic), caseOrder (all ordered case lists of length 2 and selected length 3 over {int, pointer, value, Stringer, error, interface{}, nil, *myErr}; two functions with same-named local types / type parameters that differ in what they implement), nilValReturn (6 types x real/shadowed nil x ==/!=), dupSubExpr/dupArg (11 operand kinds incl. impure calls, method calls, channel receive, map index x 6 operators). One text is analysed, one executed; they differ only by observation calls the template places itself. Observed condition values, panics, taken switch arms, returned nil-ness and operand equality must agree with every claim.",
+         "Value grids and families bound the scope; a claim about a construct outside the families is not exercised.",
+         "DESIGN.md section 3, C12"),
 }
 
 PENDING = {
